@@ -12,9 +12,7 @@ use serde_json::{json, Value};
 
 thread_local! {
     /// a version-40 symbol (every kind of function pattern far outside any smaller square) used as clone_from target
-    static LARGE: Box<fast_qr::QRCode> = Box::new(
-        fast_qr::QRBuilder::new("CLONE TARGET").version(fast_qr::Version::V40).ecl(fast_qr::ECL::L).build().expect("v40 symbol"),
-    );
+    static LARGE: Box<fast_qr::QRCode> = crate::fq::large_symbol();
 }
 
 pub fn check(bc: &BuildCase, fam: &str, obs: &mut Obs) -> Result<(), Fail> {
